@@ -143,7 +143,7 @@ fn scenario_with(words: &[u16], shape: Option<&[(Option<usize>, Role)]>) -> (Sce
             }
             _ => {}
         }
-        cas.push(Ca { parent, key: i, module, not_after: 86400 * 365, cert_fault: None, versions, extra_res: None });
+        cas.push(Ca { parent, key: i, module, not_after: 86400 * 365, cert_fault: None, versions, extra_res: None, ta_alt: vec![] });
         roles.push(role);
     }
     for i in 0..ncas {
@@ -158,8 +158,8 @@ fn scenario_with(words: &[u16], shape: Option<&[(Option<usize>, Role)]>) -> (Sce
     let publish1: Vec<usize> = roles.iter().map(|r| if *r == Role::Unchanged { 0 } else { 1 }).collect();
     let fail1 = if d.chance(1, 8) { vec![d.below(2)] } else { vec![] };
     let steps = vec![
-        Step { publish: vec![0; ncas], fail_modules: vec![], offline: false, stale: None },
-        Step { publish: publish1, fail_modules: fail1, offline: false, stale: None },
+        Step { publish: vec![0; ncas], fail_modules: vec![], offline: false, stale: None, foreign_tal_key: vec![], ta_serve: vec![] },
+        Step { publish: publish1, fail_modules: fail1, offline: false, stale: None, foreign_tal_key: vec![], ta_serve: vec![] },
     ];
     (Scenario { cfg, cas, steps }, roles.iter().map(|r| format!("{:?}", r)).collect())
 }
@@ -469,7 +469,7 @@ fn eval_point(p: &Prepared, k: u64, skip_known: bool) -> PointOutcome {
             run_config(&config_for(&sc.cfg, &opaths), true, &empty_exceptions())
         });
         let mut st = ModelState { stored: observed.iter().map(|(a, b)| (*a, *b)).collect(), ..Default::default() };
-        st.ta_stored = p.pre_model.ta_stored.clone();
+        st.ta_store = p.pre_model.ta_store.clone();
         let exp = model_step(sc, &Step { offline: true, fail_modules: vec![], ..sc.steps[1].clone() }, &mut st);
         match res {
             Err(e) => out.failures.push((format!("C23/offline-run-fails/{}", out.label), format!("{}: a run without network access over the post-kill cache fails: {}", at, e))),
